@@ -13,6 +13,7 @@ EXPLANATION = (
     "byte counts 8 / 6 / 3; Ok of check_join_allowed requires the true verdict of every limiter on its arm; (3) GATE — the "
     "bootstrap-cache insert and the listener's peer registration are dominated by the limiter's success; (4) KEY — the bucket "
     "consumed is the map entry of the key passed."
+    ' (5) every write of the token budget in try_consume is the time-earned refill, the cap at burst or the consumption of one token, and the bucket is never replaced as a whole; helpers of try_consume / new / check_join_allowed are spliced in.'
 )
 NOT_DECIDED = "refill arithmetic against measured time, float rounding, LRU eviction of a bucket resetting its budget, concurrency of the global mutex"
 ASSUMPTIONS = ["parking_lot::RwLock write guard gives mutual exclusion per engine", "Instant is monotone"]
